@@ -29,7 +29,25 @@ fn gen_cases(rng: &mut Rng, tier: Tier) -> Vec<Value> {
             let mut cfg = GenCfg::random(rng);
             cfg.metric = true;
             cfg.jobs = (4, 10);
-            let sp = gen_problem(rng, &cfg);
+            // every third problem has more jobs than its fleet can carry (three or more tours and jobs left unassigned): the
+            // shape on which decomposition, with its separate part for the unassigned jobs, runs
+            if i % 3 == 1 {
+                cfg = GenCfg::basic();
+                cfg.metric = true;
+                cfg.jobs = (14, 20);
+                cfg.types = (1, 1);
+                cfg.vehicles_per_type = (3, 4);
+                cfg.time_windows = false;
+            }
+            let mut sp = gen_problem(rng, &cfg);
+            if i % 3 == 1 {
+                // capacity for about three quarters of the total delivery demand
+                let total: i64 = sp.jobs.iter().flat_map(|j| j.tasks.iter()).filter_map(|t| t.demand.first().copied()).sum();
+                let vehicles: i64 = sp.vehicles.iter().map(|v| v.ids.len() as i64).sum();
+                for v in sp.vehicles.iter_mut() {
+                    v.capacity = v.capacity.iter().map(|_| ((total * 3 / 4) / vehicles.max(1)).max(2)).collect();
+                }
+            }
             { let mg = [1usize, 2, 3, 10, 25][i % 5]; json!({"k": "quota", "sp": sp, "max_gens": mg, "limit": limit}) }
         })
         .collect()
